@@ -2,6 +2,7 @@
 import ast
 import logging
 import os
+import shutil
 import sys
 import traceback
 from pathlib import Path
@@ -40,9 +41,11 @@ def parse_query(src, wire="ast"):
     return a
 
 
-def translate_source(src, backend, outdir, wire="ast", exe=None):
+def translate_source(src, backend, outdir, wire="ast", exe=None, twice=False):
     """Translate one query given as Python source text.  Returns a plain dict:
-    outcome ok/raise, exception class, files written (name, mode), descriptor."""
+    outcome ok/raise, exception class, files written (name, mode), descriptor.
+    twice: the same query OBJECT is translated once before (into a scratch directory); what is
+    reported is its second translation."""
     os.makedirs(outdir, exist_ok=True)
     h = _WarnCatcher()
     root = logging.getLogger()
@@ -53,6 +56,13 @@ def translate_source(src, backend, outdir, wire="ast", exe=None):
         a = parse_query(src, wire)
         if exe is None:
             exe = executor_for(backend)
+        if twice:
+            import tempfile
+            first = tempfile.mkdtemp(prefix="verif.twice.")
+            try:
+                exe.write_cpp_files(exe.apply_ast_transformations(a), Path(first))
+            finally:
+                shutil.rmtree(first, ignore_errors=True)
         a2 = exe.apply_ast_transformations(a)
         info = exe.write_cpp_files(a2, Path(outdir))
         res["treename"] = str(getattr(info.result_rep, "treename", ""))
